@@ -608,4 +608,10 @@ def r6_status_objects_not_shared(chk):
                  keep=lambda o: o.key == 'MibStatus.setOptions')
 
 
-RULES = [r1_parser_reset, r2_generator_reset, r4_symbol_table_read_only, r5_determinism, r6_status_objects_not_shared]
+
+def r7_class_tables_not_mutated(chk):
+    """dialect classes and code generators derive tables from each other: a derived table must be a copy"""
+    common.no_mutation_of_class_tables_through_aliases(chk, 'C12.R7', sorted(r for r in chk.model.modules if r.startswith(('pysmi/lexer/', 'pysmi/parser/', 'pysmi/codegen/', 'pysmi/compiler.py'))), floor=4)
+
+
+RULES = [r1_parser_reset, r2_generator_reset, r4_symbol_table_read_only, r5_determinism, r6_status_objects_not_shared, r7_class_tables_not_mutated]
